@@ -193,6 +193,30 @@ def nodeAt : List Nat → Node → Option Node
     | some c => nodeAt p c
     | none => none
 
+/-- state of a position-tracking visitor: path of the node whose children are being walked, and the
+    ordinal the next child to be entered will get -/
+structure PathSt where
+  path : List Nat
+  next : Nat
+  deriving Repr
+
+/-- the visitor that rewrites, on `Exit`, exactly the node at position `target` (it finds the position by
+    counting `Enter`/`Exit` calls — it never looks at the nodes) -/
+def Visitor.atPath (target : List Nat) (g : Node → Node) : Visitor PathSt where
+  enter n st := (n, { path := st.path ++ [st.next], next := 0 })
+  exit n st :=
+    (if st.path = target then g n else n,
+     { path := st.path.dropLast, next := st.path.getLast?.getD 0 + 1 })
+
+/-- rewrite the sub-tree at one position -/
+def rewriteAt (g : Node → Node) : List Nat → Node → Node
+  | [], n => g n
+  | i :: p, n => n.withChildren (n.children.modify i (rewriteAt g p))
+
+/-- what the walk leaves of a sub-tree sitting at position `cur` -/
+def expectAt (g : Node → Node) (target cur : List Nat) (n : Node) : Node :=
+  if cur <+: target then rewriteAt g (target.drop cur.length) n else n
+
 /-- a visitor that never replaces a node (it may record anything in its state) -/
 def Visitor.Observing {σ : Type} (v : Visitor σ) : Prop :=
   (∀ n s, (v.enter n s).1 = n) ∧ (∀ n s, (v.exit n s).1 = n)
